@@ -51,14 +51,15 @@ def removeTombstones (t : Tree K V) (cutoff : Int) : Tree K V :=
   t.filter (fun p => !(p.2.tomb != 0 && decide (p.2.tomb < cutoff)))
 
 /-- one step of `mergeTrees`' `DiffIter` callback (`LWW` / `convertMergeFunc`):
-    `removed` (only in the graft) → insert; `changed` → insert the merge; `added` → keep -/
-def mergeStep (f : Entry V → Entry V → Entry V) (acc : Tree K V) (p : K × Entry V) : Tree K V :=
+    `removed` (only in the graft) → insert; `changed` → insert the merge; `added` → keep.
+    Generic in the entry type `E`: the kv layer uses `Entry V`, the SQL layer its row entries. -/
+def mergeStep {E : Type} [DecidableEq E] (f : E → E → E) (acc : AList K E) (p : K × E) : AList K E :=
   match lookup p.1 acc with
   | none => insert p.1 p.2 acc
   | some x => if x = p.2 then acc else insert p.1 (f x p.2) acc
 
 /-- `crdt.mergeTrees` with one graft: `f` is `LastWriteWins` or the custom merge -/
-def mergeTrees (f : Entry V → Entry V → Entry V) (a g : Tree K V) : Tree K V :=
+def mergeTrees {E : Type} [DecidableEq E] (f : E → E → E) (a g : AList K E) : AList K E :=
   g.foldl (mergeStep f) a
 
 /-- the default merge function of `crdt.LWW`: `*LastWriteWins(&av, &rv)` -/
